@@ -232,6 +232,15 @@ def run(ctx):
     excl = [n for n in ast.walk(rdf) if isinstance(n, ast.Compare) and isinstance(n.ops[0], (ast.In, ast.NotIn)) and norm(n.comparators[0]) in derived]
     ctx.check(len(excl) >= 2, "R16.4", "record_descriptor_for_fields:exclude", "excluded fields are not removed in both the fields and the no-fields path", rdf, "exclude honoured on both paths")
 
+    # ------------------------------------------------------------------ R16.6 / R16.7 the parts of rdump that live in other modules
+    # --split hands the slice to SplitWriter: a part name that can repeat overwrites an earlier part of the output
+    from .c17 import check_split_suffix
+    check_split_suffix(ctx, "R16.6")
+    # -n evaluates with the interpreted engine, one matcher for the whole stream: state left over from one record must not decide the next
+    from .c07 import check_fresh_namespace
+    check_fresh_namespace(ctx, "R16.7")
+
+
 
 def _in_nested_loop(node, outer):
     n = getattr(node, "_parent", None)
